@@ -145,7 +145,9 @@ WorkflowEndEvent(st) ==
 
 -----------------------------------------------------------------------------
 (* history bookkeeping *)
-Bump(d, pairs) == [k \in DOMAIN d |-> IF k \in pairs THEN d[k] + 1 ELSE d[k]]
+(* bags of <<entity, status>> pairs as functions with a growing domain *)
+Cnt(d, k) == IF k \in DOMAIN d THEN d[k] ELSE 0
+Bump(d, pairs) == [k \in DOMAIN d \cup pairs |-> Cnt(d, k) + (IF k \in pairs THEN 1 ELSE 0)]
 CompletionSteps == {"CompleteTask", "CompleteStage", "CompleteStageError"}
 (* f: function from some entities to their new status, who: the step that writes *)
 Write(f, who) ==
@@ -168,8 +170,7 @@ InitWith(p) ==
   /\ pend = [w \in Workers |-> <<>>]
   /\ bus = <<>>
   /\ wr = [e \in {"wf"} \cup p.stages \cup p.tasks |-> "init"]
-  /\ done = [all  |-> [k \in ({"wf"} \cup p.stages \cup p.tasks) \X AllSt |-> 0],
-             step |-> [k \in ({"wf"} \cup p.stages \cup p.tasks) \X AllSt |-> 0]]
+  /\ done = [all |-> <<>>, step |-> <<>>]
   /\ cnt = [crashes |-> 0, rollbacks |-> 0, force |-> 0, cancels |-> 0, skips |-> 0]
   /\ act = Label("Init", "", FALSE)
 
@@ -456,21 +457,24 @@ FromSnapshot(p, n) == IF p <= n THEN ReplayFrom(RebuildAsOf(p), Between(p, n)) E
 -----------------------------------------------------------------------------
 (* property formulas *)
 
-CountEv(x, types, s) ==
-  Cardinality({i \in DOMAIN ev : ev[i].ent = x /\ ev[i].typ \in types /\
-                 (IF ev[i].typ \in {"task.failed", "stage.failed"} THEN Dflt(ev[i], "TERMINAL")
-                  ELSE IF ev[i].typ = "stage.skipped" THEN "SKIPPED" ELSE Dflt(ev[i], "SUCCEEDED")) = s})
+EvSt(e) == IF e.typ \in {"task.failed", "stage.failed"} THEN Dflt(e, "TERMINAL")
+           ELSE IF e.typ = "stage.skipped" THEN "SKIPPED" ELSE Dflt(e, "SUCCEEDED")
+EvPair(e) == <<e.ent, EvSt(e)>>
+EvPairs(types) == {EvPair(ev[i]) : i \in {j \in DOMAIN ev : ev[j].typ \in types}}
+CountEv(types, k) == Cardinality({i \in DOMAIN ev : ev[i].typ \in types /\ EvPair(ev[i]) = k})
 
 (* C13: a completion event of a stage / task exists only if that completion is durable in the store
    (state invariant: holds in every post-crash / post-rollback state) *)
 C13_NoPhantom ==
-  \A x \in Stages \cup Tasks : \A s \in AllSt : CountEv(x, CompletionTypes, s) <= done.all[<<x, s>>]
+  \A k \in EvPairs(CompletionTypes) : CountEv(CompletionTypes, k) <= Cnt(done.all, k)
+(* the same for stage.skipped.  SkipStageHandler records it in a commit of its own BEFORE its state
+   transaction, so the formula is evaluated where the statement of C13 looks: with no handler in
+   flight, i.e. after a crash (or between two handlers) *)
 C13_NoPhantomSkip ==
-  \A x \in Stages : CountEv(x, {"stage.skipped"}, "SKIPPED") <= done.all[<<x, "SKIPPED">>]
+  AllIdle => \A k \in EvPairs({"stage.skipped"}) : CountEv({"stage.skipped"}, k) <= Cnt(done.all, k)
 (* C13: a completion committed by the regular CompleteTask / CompleteStage step never lacks its event *)
 C13_NoMissing ==
-  \A x \in Stages \cup Tasks : \A s \in AllSt :
-     done.step[<<x, s>>] <= CountEv(x, CompletionTypes \cup {"stage.skipped"}, s)
+  \A k \in DOMAIN done.step : done.step[k] <= CountEv(CompletionTypes \cup {"stage.skipped"}, k)
 (* C13: subscribers are notified only of events whose transaction committed *)
 C13_PublishAfterCommit == \A i \in DOMAIN bus : \E j \in DOMAIN ev : ev[j] = bus[i]
 (* C13: sequence numbers are unique and increasing *)
